@@ -40,8 +40,11 @@ Definition c_div_u (a b : Z) : option Z := if b =? 0 then None else Some (Z.quot
 Definition c_rem_u (a b : Z) : option Z := if b =? 0 then None else Some (Z.rem a b).
 
 (* shifts; `bits` is the width of the promoted left operand *)
+(* (nested ifs: the shift is not computed for a bad count, also under call-by-value evaluation such as vm_compute) *)
 Definition c_shl_s (bits x c : Z) : option Z :=
-  if (0 <=? c) && (c <? bits) && (0 <=? x) && (Z.shiftl x c <? 2 ^ (bits - 1)) then Some (Z.shiftl x c) else None.
+  if (0 <=? c) && (c <? bits) && (0 <=? x) then
+    if Z.shiftl x c <? 2 ^ (bits - 1) then Some (Z.shiftl x c) else None
+  else None.
 Definition c_shl_u (bits x c : Z) : option Z :=
   if (0 <=? c) && (c <? bits) then Some (c_wrap_u bits (Z.shiftl x c)) else None.
 Definition c_shr (bits x c : Z) : option Z :=
